@@ -97,7 +97,7 @@ def mutations(base):
         raw = obs.encode_stream(evs)
         # 1. header bytes
         for b in range(8):
-            for newv in (raw[b] ^ 0xff, (raw[b] + 1) & 0xff):
+            for newv in sorted(set([raw[b] ^ 0xff, (raw[b] + 1) & 0xff, 0x00, 0x20, raw[b] ^ 0x20]) - {raw[b]}):
                 def ap(d, key=key, b=b, newv=newv, raw=raw):
                     r = bytearray(raw); r[b] = newv
                     open(os.path.join(sdir(d, key), "stream.obs"), "wb").write(r)
